@@ -17,9 +17,10 @@ structure PendOkW (P : List Pend) (nslow nasync : Nat) (released : List Nat) (ne
     | .del _ _ => ∃ n, p.tag = .d n ∧ n ≤ nasync
     | .cls _ => ∃ n, p.tag = .c n ∧ n ≤ nasync
   minted : ∀ p ∈ P, ∀ i, sidOf p = some i → i < next
+  sids : ∀ p ∈ P, (sidOf p).isSome = true
 
 theorem PendOk.weak {d : RState} (h : PendOk d) : PendOkW d.pend d.nslow d.nasync d.released d.st.next := by
-  refine ⟨h.tags, h.slots, ?_, h.minted⟩
+  refine ⟨h.tags, h.slots, ?_, h.minted, h.sids⟩
   intro p hp
   have := h.shape p hp
   cases hk : p.kind with
@@ -46,7 +47,7 @@ theorem filter_filterMap_sublist {α β} (q : α → Bool) (f : α → Option β
 theorem PendOkW.strong {P : List Pend} {ns na : Nat} {rel : List Nat} {st : State} (h : PendOkW P ns na rel st.next) :
     PendOk { st := st, nslow := ns, nasync := na, released := rel, pend := P.filter (keepOf st) } := by
   refine ⟨List.Nodup.sublist (filter_map_sublist _ _ _) h.tags,
-    List.Nodup.sublist (filter_filterMap_sublist _ _ _) h.slots, ?_, ?_⟩
+    List.Nodup.sublist (filter_filterMap_sublist _ _ _) h.slots, ?_, ?_, ?_⟩
   · intro p hp
     have hp' := List.mem_filter.mp hp
     have hsh := h.shape p hp'.1
@@ -57,6 +58,7 @@ theorem PendOkW.strong {P : List Pend} {ns na : Nat} {rel : List Nat} {st : Stat
     | del i f => rw [hk] at hsh hl; exact ⟨hsh, hl⟩
     | cls i => rw [hk] at hsh hl; exact ⟨hsh, hl⟩
   · intro p hp; exact h.minted p (List.mem_filter.mp hp).1
+  · intro p hp; exact h.sids p (List.mem_filter.mp hp).1
 
 theorem isLive_eq {s : State} {i : Nat} {e : Sess} (h : findSess i s.tbl = some e) : isLive s i = !e.removed := by
   simp [isLive, h]
@@ -120,9 +122,10 @@ theorem relPreAt_dead {cfg : Cfg} {P : List Pend} {tbl : List MSess} {e : Sess} 
 
 /-- **one entry moves** -/
 theorem sim_one_op {cfg : Cfg} {d d' : RState} {m : Mon} {o : Obs} (hs : Sim cfg d m) {op : Op}
-    {i : Nat} {G : Sess → Sess} {st2 : State} {P : List Pend} {status : St} {hang : Bool} {done0 : List (Tag × Nat)}
+    {i : Nat} {G : Sess → Sess} {st1 st2 : State} {P : List Pend} {status : St} {hang : Bool} {done0 : List (Tag × Nat)}
     {log : List LogEnt} {ns' na' : Nat} {rel' : List Nat} {tblX : List MSess}
-    (hmo : modelOp d op = some { st := st2, status := status, hdr := none, hang := hang, done := done0, log := log, pend := P, nslow := ns', nasync := na', released := rel' })
+    (hmo : modelOp d op = some { st := st1, status := status, hdr := none, hang := hang, done := done0, log := log, pend := P, nslow := ns', nasync := na', released := rel' })
+    (hset : st1 = st2 ∨ settle st1 = st2)
     (htbl : st2.tbl = d.st.tbl.map (lift i G)) (hG : KeepsId G) (hcfg : st2.cfg = d.st.cfg) (hnext : st2.next = d.st.next)
     (hnow : st2.now = d.st.now) (hfl : st2.faults = d.st.faults) (hinv : Inv st2)
     (hpw : PendOkW P ns' na' rel' d.st.next)
@@ -152,7 +155,11 @@ theorem sim_one_op {cfg : Cfg} {d d' : RState} {m : Mon} {o : Obs} (hs : Sim cfg
     apply settle_settled hinv hst2
     intro e he
     exact settleE_of_eok _ (hP0.2 e he)
-  simp only [replayOp, hmo, hsettle, completions_eq] at hop
+  have hs1 : settle st1 = st2 := by
+    rcases hset with h | h
+    · rw [h]; exact hsettle
+    · exact h
+  simp only [replayOp, hmo, hs1, completions_eq] at hop
   simp only [Option.some.injEq, Prod.mk.injEq] at hop
   obtain ⟨hd', ho⟩ := hop
   subst hd'; subst ho
